@@ -25,7 +25,8 @@ TypeError; `==` between None and a number is False.
 Accepted subset (anything else raises Reject):
   methods `def m(self, p...)` of class Duration, decorators none or `property`,
   parameter types fixed per entry point (Duration object, int);
-  statements: x = e | a, b = e | x op= e | obj._slot = e | obj._slot op= e |
+  statements: x = e | a, b = e | a = b = e (e once, then left to right) |
+      x op= e | obj._slot = e | obj._slot op= e |
       (obj._a, obj._b) = (e1, e2) | setattr(obj, <static str>, e) |
       if/elif/else (continuation passing when a branch returns, merge of the
       assigned locals otherwise) | return e | raise TypeError(...) |
@@ -38,7 +39,9 @@ Accepted subset (anything else raises Reject):
       lexicographically as CPython does), and/or/not with short circuit,
       conditional expressions, tuples, CALENDAR.X, obj._slot, obj.__slots__,
       getattr(obj, <static str>[, None]), isinstance (decided statically from
-      the entry-point types), abs, int, divmod, sum([...]), hash(e) directly
+      the entry-point types; a tuple of classes = or), any/all(e for a in
+      <static list of strings>) (unrolled, short circuit), abs, int, divmod,
+      sum([...]), hash(e) directly
       under `return` (translated as e: the hashed key), method calls on
       Duration objects, Duration(k=v...) (through __init__, standardize off),
       operators + - * on Duration objects through __add__/__sub__/__mul__/
@@ -340,36 +343,47 @@ class ClassUnit:
 
     # ------------------------------------------------------------ slot typing
     def check_slot_types(self):
-        """int / int-or-float typing of the slots, from __init__ itself."""
+        """int / int-or-float typing, from __init__'s _type_checker call alone.
+
+        The call fixes the run-time type of every constructor parameter: exactly
+        (int[, None]) -> Z, exactly (int, float[, None]) -> Q.  The REQUIRED
+        constructor entry point must be typed with exactly these types.  Which
+        parameter ends up in which slot is NOT read off syntactically: __init__
+        is translated with these parameter types into the record, and `store`
+        rejects an int-or-float value going into an int slot (Q -> option Z has
+        no coercion), so whatever shape the body has (hoisted locals, chained
+        assignments), an accepted __init__ writes only well-typed slots; that it
+        writes the RIGHT ones is the lemma gen3_init (= dur_make)."""
         init = self.methods.get("__init__")
         if init is None:
             raise Reject("no unique __init__")
+        calls = [n for n in ast.walk(init) if isinstance(n, ast.Call)
+                 and isinstance(n.func, ast.Name) and n.func.id == "_type_checker"]
+        top = [st.value for st in init.body if isinstance(st, ast.Expr) and st.value in calls]
+        if len(calls) != 1 or len(top) != 1:
+            raise Reject("__init__ must call _type_checker exactly once, as a top-level statement")
         allowed = {}
-        for st in init.body:
-            if isinstance(st, ast.Expr) and isinstance(st.value, ast.Call) \
-                    and isinstance(st.value.func, ast.Name) and st.value.func.id == "_type_checker":
-                for a in st.value.args:
-                    if not (isinstance(a, ast.Tuple) and len(a.elts) >= 3
-                            and isinstance(a.elts[0], ast.Name)):
-                        raise Reject("_type_checker argument shape")
-                    allowed[a.elts[0].id] = sorted(ast.unparse(e) for e in a.elts[2:])
-        feeds = {}
-        for n in ast.walk(init):
-            if isinstance(n, ast.Assign) and len(n.targets) == 1 and isinstance(n.targets[0], ast.Attribute) \
-                    and isinstance(n.targets[0].value, ast.Name) and n.targets[0].value.id == "self" \
-                    and isinstance(n.value, ast.Name):
-                feeds.setdefault(n.targets[0].attr, set()).add(n.value.id)
-        for slot, ty in SLOTS:
-            if slot == "_weeks":
-                continue   # assigned None or self._days // DAYS_IN_WEEK: checked by translating __init__
-            ps = feeds.get(slot, set())
-            if len(ps) != 1:
-                raise Reject("__init__ does not feed %s from exactly one parameter" % slot)
-            al = allowed.get(next(iter(ps)))
-            want = ["None", "int"] if ty == Z else ["None", "float", "int"]
-            if al != want:
-                raise Reject("_type_checker allows %r for %s, the record says %s" % (al, slot, ty))
+        for a in calls[0].args:
+            if not (isinstance(a, ast.Tuple) and len(a.elts) >= 3 and isinstance(a.elts[0], ast.Name)):
+                raise Reject("_type_checker argument shape")
+            if a.elts[0].id in allowed:
+                raise Reject("_type_checker lists %s twice" % a.elts[0].id)
+            allowed[a.elts[0].id] = sorted(ast.unparse(e) for e in a.elts[2:])
+        ptypes = {}
+        for p, al in allowed.items():
+            core = [x for x in al if x != "None"]
+            if core == ["int"]:
+                ptypes[p] = Z
+            elif core == ["float", "int"]:
+                ptypes[p] = Q
+            else:
+                raise Reject("_type_checker allows %r for %s: neither int nor int-or-float" % (al, p))
+        entry = [r for r in REQUIRED if r[0] == "__init__" and r[2]]
+        if len(entry) != 1 or dict(entry[0][1]) != ptypes:
+            raise Reject("_type_checker types the constructor parameters %r, the entry point says %r"
+                         % (sorted(ptypes.items()), sorted(entry[0][1]) if entry else None))
         self.init_allowed = allowed
+        self.init_ptypes = ptypes
 
     # ------------------------------------------------------------ helpers
     def num(self, v, fx, binds, what):
@@ -746,6 +760,42 @@ class ClassUnit:
         if isinstance(f, ast.Name):
             if f.id in env.ty:
                 raise Reject("call of a local")
+            if f.id == "isinstance" and len(n.args) == 2 and not n.keywords \
+                    and isinstance(n.args[1], ast.Tuple):
+                # isinstance(x, (A, B)) == isinstance(x, A) or isinstance(x, B)
+                rs = []
+                for c in n.args[1].elts:
+                    one = ast.Call(func=f, args=[n.args[0], c], keywords=[])
+                    rs.append(self.call(one, env, fx)[1].static)
+                r = any(rs)
+                return [], Val("true" if r else "false", B, static=r)
+            if f.id in ("any", "all") and len(n.args) == 1 and not n.keywords \
+                    and isinstance(n.args[0], ast.GeneratorExp):
+                # any(e(a) for a in <static list of strings>): truthiness of e(a), in order, short circuit
+                g = n.args[0]
+                if len(g.generators) != 1 or g.generators[0].ifs or g.generators[0].is_async \
+                        or not isinstance(g.generators[0].target, ast.Name):
+                    raise Reject("%s over a generator of another shape" % f.id)
+                var = g.generators[0].target.id
+                it = g.generators[0].iter
+                if isinstance(it, (ast.List, ast.Tuple)) and it.elts and all(
+                        isinstance(e, ast.Constant) and isinstance(e.value, str) for e in it.elts):
+                    items = [e.value for e in it.elts]
+                else:
+                    _, iv = self.expr(it, env, fx)
+                    if iv.ty[0] != "STRLIST":
+                        raise Reject("%s over `%s`, not a static list of strings" % (f.id, ast.unparse(it)))
+                    items = list(iv.ty[1])
+                self.storable(var, env)
+                if var in env.ty and not is_static(env.ty[var]):
+                    raise Reject("generator variable %s shadows a local" % var)
+                ops = []
+                for item in items:
+                    env2 = env.copy()
+                    env2.ty[var] = ("STR", item)
+                    ops.append(self.test(g.elt, env2, fx))
+                binds, t, c = self.shortcut(ops, f.id == "all", fx)
+                return binds, Val(t, B, static=c)
             if f.id == "isinstance" and len(n.args) == 2 and not n.keywords:
                 _, v = self.expr(n.args[0], env, fx)
                 cls = ast.unparse(n.args[1])
@@ -908,7 +958,7 @@ class ClassUnit:
 
     def storable(self, name, env):
         if name in ("CALENDAR", "self", CLS, "isinstance", "getattr", "setattr", "abs", "int",
-                    "divmod", "sum", "hash", "_type_checker", "TypeError"):
+                    "divmod", "sum", "hash", "any", "all", "_type_checker", "TypeError"):
             raise Reject("local %s shadows a global / self" % name)
         if name in env.ty and is_static(env.ty[name]):
             raise Reject("assignment to the loop variable %s" % name)
@@ -947,9 +997,28 @@ class ClassUnit:
                     and s.exc.func.id == "TypeError" and s.cause is None):
                 raise Reject("raise of something other than TypeError(...)")
             return pad + "Raise TypeError"
+        if isinstance(s, ast.Assign) and len(s.targets) > 1:
+            # a = b = e: e is evaluated once, then assigned to the targets left to right
+            binds, v = self.expr(s.value, env, fx)
+            if v.text is None or v.ty == OBJ or is_tuple(v.ty):
+                raise Reject("chained assignment of a %r" % (v.ty,))
+            out = self.lines(ind, binds, "")
+            if v.ty != NONE:
+                tmp = fx.fresh()
+                out += pad + "let %s := %s in\n" % (tmp, v.text)
+                v = Val(tmp, v.ty)
+            env2 = env
+            for tgt in s.targets:
+                if isinstance(tgt, ast.Name):
+                    env2 = self.bind_local(tgt.id, v, env2, None)
+                    out += pad + "let v_%s := %s in\n" % (tgt.id, v.text)
+                elif isinstance(tgt, ast.Attribute) and isinstance(tgt.value, ast.Name):
+                    line, env2 = self.store(tgt.value.id, tgt.attr, v, env2, fx)
+                    out += pad + line
+                else:
+                    raise Reject("chained assignment target %s" % type(tgt).__name__)
+            return out + self.block(rest, env2, fall, fx, ind)
         if isinstance(s, ast.Assign):
-            if len(s.targets) != 1:
-                raise Reject("multiple assignment")
             tgt = s.targets[0]
             # x = cls(_is_empty_instance=True): an object none of whose slots is assigned
             if isinstance(tgt, ast.Name) and self.is_empty_instance(s.value):
@@ -1062,10 +1131,10 @@ class ClassUnit:
             if not (isinstance(a, ast.Tuple) and len(a.elts) >= 3 and isinstance(a.elts[0], ast.Name)):
                 raise Reject("_type_checker argument shape")
             ty = env.ty.get(a.elts[0].id)
-            allowed = {ast.unparse(e) for e in a.elts[2:]}
-            if ty == Z and "int" in allowed:
+            allowed = {ast.unparse(e) for e in a.elts[2:]} - {"None"}
+            if ty == Z and allowed == {"int"}:
                 continue
-            if ty == Q and {"int", "float"} <= allowed:
+            if ty == Q and allowed == {"int", "float"}:
                 continue
             raise Reject("_type_checker: %s of type %r against %s" % (a.elts[0].id, ty, sorted(allowed)))
         if c.keywords:
